@@ -127,7 +127,7 @@ class RefTable:
         k = i - len(STATIC) - 1
         if 0 <= k < len(self.entries):
             return self.entries[k]
-        raise RefError(IDX, 'index %d' % i)
+        raise RefError(IDX, 'index of %d bits' % i.bit_length())
 
     def copy(self):
         t = RefTable(self.maxsize); t.entries = deque(self.entries); return t
